@@ -195,3 +195,16 @@ def all_points(world):
 
 def doctest_ids(world):
     return [dtid for dtid, dt, mod in W.iter_doctests(world)]
+
+
+def fix_chunk_starts(steps):
+    """after steps were inserted/removed: a traceback want may only sit on a
+    statement that is a part of its own (an expression statement, or the first
+    statement of its chunk); restore that by a blank line where needed"""
+    prev = None
+    for st in steps:
+        w = st.get('want') or ''
+        if w.startswith('tb') and not W.is_expr(st) and prev is not None:
+            if not prev.get('want') and st.get('sep', 'none') == 'none':
+                st['sep'] = 'blank'
+        prev = st
